@@ -239,22 +239,39 @@ mod search {
             Op::InsA => { s.insert("a", 1).await.unwrap(); }
             Op::InsB => { s.insert("b", 2).await.unwrap(); }
             Op::OverA => { s.insert("a", 9).await.unwrap(); }
-            Op::RemA => { s.remove_raw("a").await.unwrap(); }
+            Op::RemA => {
+                // alternate between the typed and the raw removal: both must return what was there and remove it
+                let before = s.get_raw("a").await.unwrap().and_then(|v| v.as_i64());
+                let marked_noop = before.is_none();
+                let got = if before.map(|v| v % 2 == 1).unwrap_or(false) { s.remove::<i64>("a").await.unwrap() } else { s.remove_raw("a").await.unwrap().and_then(|v| v.as_i64()) };
+                if !marked_noop && got != before { return Err(format!("remove returned {got:?}, the value was {before:?}")); }
+            }
             Op::Clear => { s.clear().await.unwrap(); }
             Op::Delete => s.delete(),
             Op::Cycle => s.cycle_id(),
             Op::Sync => return s.sync().await.map_err(|e| format!("{e:?}")),
             Op::Invalidate => s.invalidate(),
             Op::CIns => { s.client_mut().insert("c", 7).unwrap(); }
-            Op::CRem => { s.client_mut().remove_raw("c"); }
+            Op::CRem => { let before = s.client().get_raw("c").and_then(|v| v.as_i64()); let got: Option<i64> = s.client_mut().remove("c").unwrap();
+                          if !s.is_invalidated() && got != before { return Err(format!("client remove returned {got:?}, the value was {before:?}")); } }
             Op::CClear => { s.client_mut().clear(); }
         }
         Ok(())
     }
     async fn observe(s: &Session<'_>) -> Obs {
         let mut o = Obs::default();
-        for k in ["a", "b"] { if let Some(v) = s.get_raw(k).await.unwrap() { o.server.insert(k.into(), v.as_i64().unwrap()); } }
-        if let Some(v) = s.client().get_raw("c") { o.client.insert("c".into(), v.as_i64().unwrap()); }
+        for k in ["a", "b"] {
+            let raw = s.get_raw(k).await.unwrap().map(|v| v.as_i64().unwrap());
+            let typed: Option<i64> = s.get(k).await.unwrap();
+            assert_eq!(raw, typed, "get and get_raw disagree on {k}");
+            if let Some(v) = raw { o.server.insert(k.into(), v); }
+        }
+        assert_eq!(s.is_empty().await.unwrap(), o.server.is_empty(), "is_empty disagrees with the keys that can be read");
+        let raw = s.client().get_raw("c").map(|v| v.as_i64().unwrap());
+        let typed: Option<i64> = s.client().get("c").unwrap();
+        assert_eq!(raw, typed, "client get and get_raw disagree");
+        assert_eq!(s.client().is_empty(), raw.is_none(), "client is_empty disagrees");
+        if let Some(v) = raw { o.client.insert("c".into(), v); }
         o
     }
 
